@@ -142,7 +142,7 @@ class World:
     def sim_class(self):
         from EasyFEA import Simulations
 
-        return {"thermal": Simulations.Thermal, "elastic": Simulations.Elastic, "hyper": Simulations.HyperElastic}[self.sim]
+        return {"thermal": Simulations.Thermal, "elastic": Simulations.Elastic, "hyper": Simulations.HyperElastic, "phasefield": Simulations.PhaseField}[self.sim]
 
     # -- construction of models from public parameters
     def new_model(self, dim, src=None):
@@ -153,6 +153,12 @@ class World:
                 return Models.HyperElastic.SaintVenantKirchhoff(dim, lmbda=3.0, mu=1.25, thickness=0.75)
             return Models.HyperElastic.SaintVenantKirchhoff(dim, lmbda=src.lmbda, mu=src.mu, thickness=src.thickness)
 
+        if self.sim == "phasefield":
+            # Bourdin split: the stress has no value-dependent branch; the elastic law is nested in the phase-field model
+            if src is None:
+                return Models.PhaseField(Models.Elastic.Isotropic(dim, E=200.0, v=0.25, planeStress=False, thickness=0.75), "Bourdin", "AT2", Gc=1.5, l0=0.25)
+            m0 = src.material
+            return Models.PhaseField(Models.Elastic.Isotropic(dim, E=m0.E, v=m0.v, planeStress=m0.planeStress, thickness=m0.thickness), src.split, src.regularization, Gc=src.Gc, l0=src.l0)
         if self.sim == "thermal":
             if src is None:
                 return Models.Thermal(k=2.5, c=1.25, thickness=0.75)
@@ -212,6 +218,10 @@ class World:
         s2 = cls(clone_mesh(s.mesh), self.new_model(s.mesh.dim, s.model), verbosity=False)
         if self.sim == "hyper":
             s2.Solver_Set_Hyperbolic_Algorithm(dt=0.25)
+        if self.sim == "phasefield":
+            # the matrices of both problems depend on the current fields: same state in the fresh simulation, set before its first assembly
+            s2._Set_solutions(s2.ProblemTypes.elastic, np.array(s.displacement, copy=True))
+            s2._Set_solutions(s2.ProblemTypes.damage, np.array(s.damage, copy=True))
         s2.rho = self.P[i]["rho"]
         if self.P[i]["algo"] is not None and self.sim in ("thermal", "elastic"):
             (s2.Solver_Set_Parabolic_Algorithm if self.sim == "thermal" else s2.Solver_Set_Hyperbolic_Algorithm)(self.P[i]["algo"])
@@ -235,6 +245,17 @@ def warm(w, i=0, solve=True):
             s.Solve()
             s.Result("N", nodeValues=False) if "N" in s.Results_Available() else None
         return
+    if w.sim == "phasefield":
+        PT = s.ProblemTypes
+        if not np.any(np.asarray(s.damage, dtype=object) != 0):
+            nn = s.mesh.Nn
+            s._Set_solutions(PT.elastic, np.array([((7 * k) % 11 - 5) / 400 for k in range(nn * s.mesh.dim)]))
+            s._Set_solutions(PT.damage, np.array([((3 * k) % 7) / 10 for k in range(nn)]))
+            s.Need_Update()  # as Solve() does after changing a field
+        s.Get_K_C_M_F(PT.elastic)
+        s.Get_K_C_M_F(PT.damage)
+        s.Result("psiP", nodeValues=False)
+        return
     if w.sim == "hyper":
         # the hyperelastic system is built at the current Newton iterate (set as Solve() does); its element mass matrix is cached on the simulation
         s._Simu__Solver_Set_Newton_Raphson_current_solution(np.zeros(s.mesh.Nn * s.Get_dof_n()))
@@ -257,7 +278,7 @@ def warm(w, i=0, solve=True):
         s.Result(name, nodeValues=False)
 
 
-RESULTS = {"elastic": ["Stress", "Wdef_e"], "thermal": ["thermal"], "hyper": [], "beam": [], "frame": []}
+RESULTS = {"elastic": ["Stress", "Wdef_e"], "thermal": ["thermal"], "hyper": [], "beam": [], "frame": [], "phasefield": []}
 
 
 # ------------------------------------------------------------------------------------------------ operations
@@ -270,7 +291,13 @@ def op_apply(w, name, V, tag):
     if name == "lmbda":
         m.lmbda = V.get(f"lmbda{tag}", 1, 10)
     elif name == "E":
-        (w.beam if w.sim in ("beam", "frame") else m).E = V.get(f"E{tag}", 50, 500)
+        (w.beam if w.sim in ("beam", "frame") else m.material if w.sim == "phasefield" else m).E = V.get(f"E{tag}", 50, 500)
+    elif name == "Gc":
+        m.Gc = V.get(f"Gc{tag}", Fraction(1, 2), 5)
+    elif name == "l0":
+        m.l0 = V.get(f"l0{tag}", Fraction(1, 10), 1)
+    elif name == "regu":
+        m.regularization = "AT1" if str(m.regularization).endswith("AT2") else "AT2"
     elif name == "v":
         m.v = V.get(f"nu{tag}", Fraction(1, 10), Fraction(2, 5))
     elif name == "yAxis":
@@ -279,7 +306,7 @@ def op_apply(w, name, V, tag):
     elif name == "planeStress":
         m.planeStress = not m.planeStress
     elif name == "thickness":
-        m.thickness = V.get(f"th{tag}", Fraction(1, 2), 2)
+        (m.material if w.sim == "phasefield" else m).thickness = V.get(f"th{tag}", Fraction(1, 2), 2)
     elif name == "k":
         m.k = V.get(f"k{tag}", 1, 10)
     elif name == "c":
@@ -394,6 +421,7 @@ FIELD_OPS = ("Efield", "kfield", "rhofield")  # per-element fields: tied to the 
 OPS = {"elastic": ["E", "v", "planeStress", "thickness", "rho", "damping", "translate", "rotate", "symmetry", "coord", "gcoord", "newmesh", "bc", "bc_add", "set_iter", "Efield", "rhofield", "scheme"],
        "thermal": ["k", "c", "thickness", "rho", "translate", "rotate", "symmetry", "coord", "gcoord", "newmesh", "bc", "set_iter", "kfield", "rhofield", "scheme"],
        "hyper": ["lmbda", "thickness", "rho", "translate", "symmetry", "coord", "gcoord", "newmesh"],
+       "phasefield": ["E", "Gc", "l0", "regu", "thickness", "translate", "coord", "newmesh"],
        "beam": ["E", "yAxis", "rho", "bc"],
        "frame": ["E", "rho", "bc", "weld", "hinge"]}
 
@@ -416,6 +444,13 @@ def observe(w, i, V, s=None):
     fresh = s is not None
     s = s if fresh else w.sims[i]
     out = []
+    if w.sim == "phasefield":
+        PT = s.ProblemTypes
+        Ku = s.Get_K_C_M_F(PT.elastic)[0]
+        Kd, _, _, Fd = s.Get_K_C_M_F(PT.damage)
+        out += [("K", dense(Ku)), ("K_damage", dense(Kd)), ("F_damage", dense(Fd)), ("psiP", np.asarray(s.Result("psiP", nodeValues=False), dtype=object).reshape(-1)),
+                ("mesh.coord", np.asarray(s.mesh.coord, dtype=object).reshape(-1))]
+        return out
     if w.sim == "hyper":
         n = s.mesh.Nn * s.Get_dof_n()
         s._Simu__Solver_Set_Newton_Raphson_current_solution(V.array(f"newton{n}", n) * Fraction(1, 8) if V.symbolic else V.array(f"newton{n}", n) / 8)
@@ -463,6 +498,9 @@ def run(cfg, V):
     un = w.unknowns()
     for i, s in enumerate(w.sims):
         nodes = s.mesh.nodes
+        if w.sim == "phasefield":
+            warm(w, i)
+            continue
         if w.sim == "frame":
             fn = w.frame_nodes
             w.add_bc(i, ("dirichlet", fn["clamp"], [0] * len(un), un))
@@ -482,7 +520,7 @@ def run(cfg, V):
             op_apply(w, name, V, f"_{k}")
             if cfg.get("warm_between", True) and k + 1 < len(cfg["ops"]):
                 for i in range(len(w.sims)):
-                    if w.sim == "hyper":
+                    if w.sim in ("hyper", "phasefield"):
                         warm(w, i)
                         continue
                     w.sims[i].Get_K_C_M_F()
@@ -608,6 +646,12 @@ def configs(tier):
         out.append({"sim": "hyper", "elem": "TRI3", "ops": [o]})
     for a, b in ([(a, b) for a in hops for b in hops] if tier == "thorough" else [("newmesh", "coord"), ("coord", "rho"), ("rho", "coord"), ("translate", "coord"), ("coord", "newmesh"), ("thickness", "coord")]):
         out.append({"sim": "hyper", "elem": "TRI3", "ops": [a, b]})
+    # two-field phase-field simulation (Bourdin split), matrices of both problems at a fixed non-trivial state (u, d)
+    pops = OPS["phasefield"]
+    for o in pops:
+        out.append({"sim": "phasefield", "elem": "TRI3", "ops": [o]})
+    for a, b in ([(a, b) for a in pops for b in pops] if tier == "thorough" else [("E", "coord"), ("coord", "Gc"), ("regu", "l0"), ("newmesh", "E"), ("translate", "regu"), ("Gc", "newmesh"), ("l0", "thickness")]):
+        out.append({"sim": "phasefield", "elem": "TRI3", "ops": [a, b]})
     # beam member: the frame of the section (yAxis) is a model parameter the element matrices depend on
     for kind in (("eulerbernoulli", "timoshenko") if tier == "thorough" else ("eulerbernoulli",)):
         bops = OPS["beam"]
